@@ -37,6 +37,7 @@ var families = []string{
 	"dollar-quote-nonascii-tag",  // the same with a non-ASCII letter in the tag (DuckDB accepts it, the masker does not)
 	"skip-prefix-quoted",         // quoted measurement names starting with a skipPrefixes entry
 	"from-mask-lookalike",        // user text shaped like __FROM_MASK_n__ next to EXTRACT/SUBSTRING/TRIM/OVERLAY
+	"strip-mask-order",           // comment marker inside a literal arranged to flip the quote pairing if comments are stripped first
 	"query-function",             // query('<sql text>') / query_table('<name>'): SQL handed over inside a string literal
 	"denylist-gap",               // table functions of the linked DuckDB that are not on the denylist
 	"header-glued-from",          // header set; FROM glued to a preceding digit (single-table fast path)
@@ -357,6 +358,26 @@ func (g *gen) grid() []stmt {
 			}
 		}
 		add("from-mask-lookalike", "no-trigger", hdr, "SELECT 1 AS y, canary __FROM_MASK_0__ '"+sp+"'")
+	}
+
+	// --- mask-then-strip vs strip-then-mask: a comment marker INSIDE a literal, placed so that stripping
+	// comments FIRST deletes one quote and flips the quote pairing of everything that follows; the text
+	// between the next two literals (a foreign file path) then becomes a string in table position. Every
+	// consumer (validator, cross-db check, permission extractor, both transforms) must use the same order.
+	{
+		file := g.root + "/" + secretDB + "/cpu/2024/01/01/00/part0.parquet"
+		for _, hdr := range []string{"", allowedDB, secretDB} {
+			ok := okTable(hdr)
+			for _, mark := range []string{"a -- b", "a --", "--", "a /* b", "x -- y -- z"} {
+				for _, tailq := range []string{" --'", " -- '", "\n--'", " /*'*/"} {
+					add("strip-mask-order", "comma", hdr, "SELECT '"+mark+"' AS t\n, ' , z.canary FROM "+ok+", '"+file+"' z"+tailq)
+					add("strip-mask-order", "join", hdr, "SELECT '"+mark+"' AS t\n, ' , z.canary FROM "+ok+" a JOIN '"+file+"' z ON true"+tailq)
+					add("strip-mask-order", "from", hdr, "SELECT '"+mark+"' AS t\n, ' , canary FROM '"+file+"'"+tailq)
+					add("strip-mask-order", "reader", hdr, "SELECT '"+mark+"' AS t\n, ' , canary FROM parquet_scan('"+file+"')"+tailq)
+					add("strip-mask-order", "dq", hdr, "SELECT \""+mark+"\" AS t\n, \" , z.canary FROM "+ok+", '"+file+"' z --\"")
+				}
+			}
+		}
 	}
 
 	// --- lexical disguises: hide a live payload from the validator
